@@ -39,7 +39,7 @@ def run_pool(fn, jobs, nproc=None):
 
 
 def run_programs(name, progs, scope, known, *, opts=None, kf_crosstalk="KF-K7-crosstalk", classify=None,
-                 exhaustive=True) -> BoundedResult:
+                 exhaustive=True, option_refusal_ok=False) -> BoundedResult:
     """progs: [(id, source)].  `classify(pid, src, output_dict) -> finding id | None` lets a property map a
     mismatch that exactly matches a recorded known finding to that finding."""
     opts = opts or {}
@@ -55,6 +55,12 @@ def run_programs(name, progs, scope, known, *, opts=None, kf_crosstalk="KF-K7-cr
         br.cases += 1
         if r["status"] == "error":
             br.error = f"{pid}: {r['detail']}\n{r.get('tb', '')}"
+            continue
+        if r["status"] == "rejected" and option_refusal_ok and "[layout_planning]" in r["detail"]:
+            # the SAME program is accepted without this option (the plain modes of the same check require it); with the option the
+            # layout stage refuses it: no blueprint, so nothing the property (accepted programs only) speaks about. Counted and listed.
+            br.monitors["refused_with_option"] = br.monitors.get("refused_with_option", 0) + 1
+            br.monitors.setdefault("refused_programs", []).append(pid)
             continue
         if r["status"] == "rejected":
             br.undecided.append(f"{pid}: scope program rejected by the compiler: {r['detail'][:200]}")
@@ -120,4 +126,6 @@ def run_programs(name, progs, scope, known, *, opts=None, kf_crosstalk="KF-K7-cr
         if len(br.samples) < 3:
             br.samples.append({"id": pid, "program": src, "verdict": [(o["name"], o["status"]) for o in r["outputs"]]})
     br.distinct = judged
+    if option_refusal_ok and br.monitors.get("refused_with_option", 0) * 2 > br.cases:
+        br.undecided.append(f"more than half of the scope ({br.monitors['refused_with_option']} of {br.cases}) is refused with options {opts}: nothing left to judge")
     return br
